@@ -197,7 +197,8 @@ class RefExec:
         for a in f.args:
             # a failing argument hook (@vtgate with an injected fault) fails the field, like any argument coercion error
             if (f.name, a.name) in self.w.arg_faults and a.name in args and any(d[0] == "vtgate" for d in a.directives):
-                self.fail(path, "args", nodes, "argument hook of %s failed" % a.name)
+                self.fail(path, "raise_tf" if getattr(self.w, "arg_fault_kind", "raise") == "raise_tf" else "args", nodes,
+                          "arg:%s.%s" % (f.name, a.name))
         pid = ident_of(obj)
         if f.resolver == "explicit":
             self.res.calls.append(("%s.%s" % (T, f.name), pid, canon(args)))
@@ -211,7 +212,7 @@ class RefExec:
                     out = ("value", None, out[2])
             if self.s.custom_default_resolver:
                 self.res.default_calls.append(("default:%s.%s" % (T, f.name), pid, canon(args)))
-        if out[0] in ("raise", "raise_tf", "raise_shared"):
+        if out[0] in ("raise", "raise_tf", "raise_odd", "raise_shared"):
             self.fail(path, out[0], nodes, out[2])
         return self.complete(f.type, out[1], path, nodes, T, f)
 
